@@ -37,6 +37,8 @@ META = {
 
 
 def run(rep):
+    from ..rules import walk as _Wv
+    rep.run(_Wv.view_is_complete, "O17.1")
     from ..rules import walk as _W
     rep.run(_W.writer_sides_independent, "O17.1", False)
     rep.run(matrices)
